@@ -429,6 +429,9 @@ impl Check for PositionLedger {
             InstrumentDef { exchange: 1, base: 1, quote: 2, kind: match case.fills[0].dt % 3 { 0 => KindDef::Spot, 1 => KindDef::Perpetual { settle: 1 }, _ => KindDef::Perpetual { settle: 2 } }, unit: UnitDef::NoSpec },
             InstrumentDef { exchange: 2, base: 0, quote: 3, kind: KindDef::Spot, unit: UnitDef::NoSpec },
         ];
+        // the other exchange lists the traded instrument too, under the same exchange-side symbol
+        let mut defs = defs;
+        defs.push(InstrumentDef { exchange: 2, ..defs[1].clone() });
         let indexed = world::index(&defs);
         let mut state = world::engine_state(&indexed, TradingState::Disabled);
         let pristine = state.clone();
@@ -438,8 +441,31 @@ impl Check for PositionLedger {
         let mut l2 = Ledger::default();
         let mut shape2 = Shape::default();
         let mut n_exits = 0usize;
+        // in half of the cases the fills arrive the way an execution link delivers them: named by the
+        // exchange's own symbol and translated by that exchange's AccountEventIndexer
+        let via_indexer = case.fills.len() % 2 == 0;
+        rep.class_if(via_indexer, "engine_layer_fills_translated_by_the_exchange_indexer");
+        let exchange_id = indexed.exchanges()[exchange.index()].value;
+        let symbol = indexed.instruments()[1].value.name_exchange.clone();
+        let indexer = match barter_execution::map::generate_execution_instrument_map(&indexed, exchange_id) {
+            Ok(map) => barter_execution::indexer::AccountEventIndexer::new(std::sync::Arc::new(map)),
+            Err(e) => {
+                rep.fail("engine-state:instrument-map", format!("no instrument map for {exchange_id}: {e}"));
+                return rep;
+            }
+        };
         for (n, f) in fills.iter().enumerate() {
-            let ev = AccountEvent { exchange, kind: AccountEventKind::Trade(trade_of(inst, f)) };
+            let ev = if via_indexer {
+                match indexer.account_event(AccountEvent { exchange: exchange_id, kind: AccountEventKind::Trade(trade_of(symbol.clone(), f)) }) {
+                    Ok(ev) => ev,
+                    Err(e) => {
+                        rep.fail("engine-state:fill-not-translated", format!("fill {n} for {symbol} on {exchange_id} is refused by that exchange's indexer: {e}"));
+                        return rep;
+                    }
+                }
+            } else {
+                AccountEvent { exchange, kind: AccountEventKind::Trade(trade_of(inst, f)) }
+            };
             let exited = state.update_from_account(&ev);
             let cur = state.instruments.instrument_index(&inst).position.current.clone();
             if !check_step("engine-state", &mut rep, &mut l2, &mut shape2, f, n, &exited, &cur) {
@@ -451,7 +477,7 @@ impl Check for PositionLedger {
             }
         }
         // other instruments untouched by the fills
-        for i in [0usize, 2] {
+        for i in [0usize, 2, 3] {
             let a = state.instruments.instrument_index(&InstrumentIndex(i));
             let b = pristine.instruments.instrument_index(&InstrumentIndex(i));
             ensure!(rep, a == b, "engine-state:other-instrument-changed", "fills for instrument 1 changed instrument {i}");
@@ -519,7 +545,7 @@ impl Check for PositionLedger {
 }
 
 pub fn run(ctx: &mut Ctx) {
-    ctx.rule = "position_ledger: 1..30|60 fills on one instrument; one magnitude class per case (tiny ~1e-7..1e-2, mid 1e-4..1e5, huge 1..1e9 prices with matching quantity units); quantity selectors biased towards exact closes, halvings, flips (current, half, double, current+unit, pool, fresh); fee = value x rate (30% zero); one fill in seven carries an exchange time earlier than fills already applied. Applied to PositionManager::update_from_trade, to EngineState::update_from_account(Trade) and to Engine::process with trading enabled and a strategy that places an order on every tick (closed-position records read from the audit). non-trivial = >=3 fills AND at least one of {increase after a reduction, flip, exact close}; distinct by hash of the case.".into();
+    ctx.rule = "position_ledger: 1..30|60 fills on one instrument; one magnitude class per case (tiny ~1e-7..1e-2, mid 1e-4..1e5, huge 1..1e9 prices with matching quantity units); quantity selectors biased towards exact closes, halvings, flips (current, half, double, current+unit, pool, fresh); fee = value x rate (30% zero); one fill in seven carries an exchange time earlier than fills already applied. Applied to PositionManager::update_from_trade, to EngineState::update_from_account(Trade) (2 exchanges that both list the traded symbol; in half of the cases the fills are named by the exchange's symbol and translated by its AccountEventIndexer) and to Engine::process with trading enabled and a strategy that places an order on every tick (closed-position records read from the audit). non-trivial = >=3 fills AND at least one of {increase after a reduction, flip, exact close}; distinct by hash of the case.".into();
     ctx.assumptions = vec![
         "price > 0, quantity > 0, fee >= 0, unique trade ids, |price x quantity| <= 1e18 so Decimal arithmetic cannot overflow".into(),
         "decimal rounding tolerance 1e-22 x (1 + gross turnover) on the conservation laws (Decimal carries 28 significant digits; a wrong term is at least a fee or a price tick times a quantity)".into(),
